@@ -105,6 +105,13 @@ PROPS = {
                  n=dict(quick=96, thorough=480), shard=6, opts=dict(clients=8, ops=5), opts_thorough=dict(race=1, ops=6),
                  evals=dict(M="c16_conc_mismatches", V="c16_conc_violations", NT="c16_conc_nontrivial"), counts=("NT",),
                  search_rounds=2),
+            # the same concurrent clients with the race detector on, also in the quick tier (a lock narrowed around a copy or a
+            # write shows as a data race long before it shows as a non-linearisable history)
+            dict(component="mcrewconc", runner=overlay_runner("mcrew", "TestVerifMcrewConc"),
+                 require="Corr.MCrewCorr", require_vo="Corr/MCrewCorr.vo",
+                 n=dict(quick=30, thorough=60), shard=6, opts=dict(clients=8, ops=5, race=1), esc=2,
+                 evals=dict(M="c16_conc_mismatches", V="c16_conc_violations", NT="c16_conc_nontrivial"), counts=("NT",),
+                 search_rounds=1),
         ],
     ),
 }
